@@ -22,7 +22,7 @@ RULE = ("sidecars with 1-5 columns of kinds {categorical, value, ignored, absent
         ">= 2 HED-bearing columns or a reference; distinct = distinct (sidecar, table)")
 ASSUMPTIONS = ["assembly model hedmon/gen/tables.py::model_row is written from the property text",
                "comparison is on unordered trees because the order of the pieces is not part of the property"]
-MIN_MONITOR_EVALS = {"sheet-row-equals-model": 500, "row-equals-model": 1500, "well-formed": 1000, "repeatable": 300, "table-unchanged": 300,
+MIN_MONITOR_EVALS = {"sidecar-from-list": 100, "sheet-row-equals-model": 500, "row-equals-model": 1500, "well-formed": 1000, "repeatable": 300, "table-unchanged": 300,
                      "sidecar-unchanged": 300, "skip-curly-view": 300, "row-with-reference": 200}
 VERSIONS = ["8.3.0", "8.2.0", "score_2.0.0"]
 
@@ -51,7 +51,12 @@ def check_case(case, rec):
     b = case["bundle"]
     form = case["form"]
     try:
-        sidecar = Sidecar(io.StringIO(json.dumps(b["sidecar"])))
+        if case.get("sidecar_list"):
+            # the sidecar handed over as a list of sources: a later source replaces an earlier one's description of a column
+            rec.mon("sidecar-from-list")
+            sidecar = Sidecar([io.StringIO(json.dumps(part)) for part in case["sidecar_list"]])
+        else:
+            sidecar = Sidecar(io.StringIO(json.dumps(b["sidecar"])))
         side_before = copy.deepcopy(sidecar.loaded_dict)
         if form in ("frame", "frame-labels", "frame-objects"):
             src = pd.DataFrame(b["rows"], columns=b["columns"])
@@ -276,9 +281,40 @@ def run_shard(shard, rec):
             case = dict(bundle=b, form=form)
             rec.case((json.dumps(b, sort_keys=True), form), nontriv)
             check_case(case, rec)
+        if b["sidecar"] and k % 3 == 0:
+            parts = stale_then_true(b, rng)
+            case = dict(bundle=b, form="frame", sidecar_list=parts)
+            rec.case((json.dumps(b, sort_keys=True), json.dumps(parts, sort_keys=True)), nontriv)
+            check_case(case, rec)
         rec.count("references", str(len(tables.refs_of(b))))
         if rng.random() < 0.01:
             rec.sample(b)
+
+
+def stale_then_true(b, rng):
+    """The bundle's sidecar as two sources: the first holds an outdated description of some columns (other keys, the
+    keys the table uses but the sidecar no longer knows, a template with a reference), the second the true one."""
+    cols = list(b["sidecar"])
+    over = rng.sample(cols, rng.randrange(1, len(cols) + 1))
+    first, second = {}, {}
+    for c in cols:
+        if c in over:
+            second[c] = b["sidecar"][c]
+            kind = b["kinds"].get(c)
+            if kind == "categorical":
+                stale = {k: "Blue" for k in list(b["sidecar"][c]["HED"])[:1]}
+                stale.update({"unknownkey": "Red", "zz-old": "(Green, {HED})"})
+                first[c] = {"Description": "older text", "HED": stale, "Levels": {"zz-old": "gone"}}
+            elif kind == "value":
+                first[c] = {"HED": {"unknownkey": "Red", "n1": "Blue"}} if rng.random() < 0.5 else \
+                    {"HED": "Description/#, Yellow", "Units": "old"}
+            else:
+                first[c] = {"HED": {"1": "Red", "x": "Blue", "0.5": "Green"}}
+        elif rng.random() < 0.5:
+            first[c] = b["sidecar"][c]
+        else:
+            second[c] = b["sidecar"][c]
+    return [first, second]
 
 
 def replay(case, rec):
